@@ -88,7 +88,7 @@ def cmd_verify(args):
         base, wt = worktree()
         try:
             pkg = demo_pkg(d)
-            race = "-race " if any("race" in os.path.basename(f) for f in demo_files(d)) else ""
+            race = "-race " if m.get("demo_needs_race") or any("race" in os.path.basename(f) for f in demo_files(d)) else ""
             tests = "'^TestDemo'"
             res = {}
             # clean tree + demo
